@@ -24,7 +24,7 @@ class C31(Prop):
         "WorkflowTimedOutEvent(timeout=T) was published at virtual time T and its active_steps contain every step strictly in flight at T "
         "and only steps in flight or starting/finishing exactly at T; cancel_run on a live run ends it with WorkflowCancelledByUser after "
         "a WorkflowCancelledEvent, no step body is entered at a later virtual time, ctx.to_dict() then succeeds, survives JSON, and a "
-        "fresh workflow instance resumed from it runs to a result once the harness sends the finishing event (optionally the resumed run is cancelled in turn at a generated instant, serialized and resumed once more), re-entering every "
+        "fresh workflow instance resumed from it runs to a result once the harness sends the finishing event (optionally the resumed run is cancelled in turn at a generated instant, serialized and resumed once more; or the instance it is resumed on has a run timeout of 0.75/2.25 s and the finishing event is held back: a resumed run that does not end by itself publishes exactly one WorkflowTimedOutEvent that long after the resume), re-entering every "
         "invocation that was queued or running. Non-trivial = the timeout or the cancel arrived while at least one step body was in flight "
         "or a retry back-off was pending."
     )
